@@ -79,16 +79,58 @@ fn run_items(items: Vec<DItem>) -> Result<(), String> {
                 continue;
             }
         };
-        sched::note(format!("item {} begin", k));
-        sched::item_begin(it.stop_at);
-        let flag = AtomicBool::new(true);
-        let best = crate::search::get_best_move_until_stop(&game, &mut table, &flag, it.depth);
-        match best {
-            Some(m) => println!("bestmove {}", m.uci_notation()),
-            None => println!("bestmove none"),
+        if let Some(sw) = &it.sweep {
+            // reference run: how many polls does the unstopped search make, and where are its iteration boundaries
+            let mut t = table.clone();
+            let (p, bounds) = one_search(k, &game, &mut t, it.depth, None);
+            let mut ks: Vec<u64> = vec![];
+            if p <= sw.all_upto {
+                ks.extend(0..=p);
+            } else {
+                ks.extend(0..=sw.head.min(p));
+                for b in bounds {
+                    for d in [b.saturating_sub(1), b, b + 1] {
+                        if d <= p {
+                            ks.push(d);
+                        }
+                    }
+                }
+                let mut s = sw.seed;
+                for _ in 0..sw.samples {
+                    ks.push(sched::splitmix(&mut s) % (p + 1));
+                }
+                ks.push(p);
+                ks.sort();
+                ks.dedup();
+            }
+            for kk in ks {
+                let mut t = table.clone();
+                one_search(k, &game, &mut t, it.depth, Some(kk));
+            }
+        } else if it.isolated {
+            let mut t = table.clone();
+            one_search(k, &game, &mut t, it.depth, it.stop_at);
+        } else {
+            one_search(k, &game, &mut table, it.depth, it.stop_at);
         }
-        let (_, polls) = sched::stats_now();
-        sched::note(format!("item {} end polls={}", k, polls));
     }
     Ok(())
+}
+
+/// returns (polls made, poll counts at which `info depth` lines were printed)
+fn one_search(k: usize, game: &Game, table: &mut TranspositionTable, depth: Option<u8>, stop_at: Option<u64>) -> (u64, Vec<u64>) {
+    match stop_at {
+        Some(s) => sched::note(format!("item {} begin stop={}", k, s)),
+        None => sched::note(format!("item {} begin stop=-", k)),
+    }
+    sched::item_begin(stop_at);
+    let flag = AtomicBool::new(true);
+    let best = crate::search::get_best_move_until_stop(game, table, &flag, depth);
+    match best {
+        Some(m) => println!("bestmove {}", m.uci_notation()),
+        None => println!("bestmove none"),
+    }
+    let (_, polls) = sched::stats_now();
+    sched::note(format!("item {} end polls={}", k, polls));
+    (polls, sched::item_info_marks())
 }
